@@ -30,7 +30,7 @@ pub fn layout_classes(spec: &FileSpec, bytes: &[u8], n: usize, obs: &mut Obs) ->
         10..=99 => "n=10..99",
         _ => "n>=100",
     });
-    match fmtdec::decode(bytes, &fmtdec::Opts { interval: None, check_order: false }) {
+    match fmtdec::decode(bytes, &fmtdec::Opts::lax()) {
         Ok(d) => {
             let nd = d.n_data_blocks();
             obs.class(match nd {
